@@ -348,6 +348,35 @@ def run(ctx: Ctx) -> None:
                 want = SStr(["( ", holder["l"], opx, holder["r"], " )"])
                 ctx.check(same(v, want), "M3b", f"{lab}: {ln_} {opx.strip()} {rn_}", loc(lab), "( L OP R )", f"{lab}(L, R) with L a {ln_} and R a {rn_} builds {pai_desc(v)!r} instead of {want.describe()!r}: operands are regrouped or altered")
 
+    # arithmetic operands that begin with a number literal: the builders hand on the token of their first
+    # operand, so a compound operand still carries the *type* (and lexed text) of its leftmost leaf
+    ctx.rule("M3c", "an arithmetic operand whose leftmost leaf is a number literal is kept whole when a further operator or a comparison consumes it", 8)
+
+    def numtok(kind, text):
+        t_ = models.token(kind, text)
+        return X.call1("float" if kind == "SIGNED_FLOAT" else "int", lambda: [t_])
+
+    def val_of(r_):
+        return r_.attrs["value"] if isinstance(r_, SObj) else r_
+
+    for kind, text in (("SIGNED_FLOAT", "0.5"), ("SIGNED_INT", "7")):
+        prod = lambda: X.call1("mul", lambda: [numtok(kind, text), sbind("a")])
+        pv = str(pai_desc(val_of(prod())))
+        cases = {
+            f"comparison ({text} * [a]) = 1": (lambda: X.call1("comparison", lambda: [prod(), X.eval_callback("compare_op", lambda: [optoken("EQUAL")])[0].value, numtok("SIGNED_INT", "1")]), lambda: ["(", pv, "=", "1", ")"]),
+            f"comparison [w] = ({text} * [a])": (lambda: X.call1("comparison", lambda: [sbind("w"), X.eval_callback("compare_op", lambda: [optoken("EQUAL")])[0].value, prod()]), lambda: ["(", "[w]", "=", pv, ")"]),
+            f"sum ({text} * [a]) + [b]": (lambda: X.call1("add", lambda: [prod(), sbind("b")]), lambda: [pv, "+", "[b]"]),
+            f"negation of {text}, compared": (lambda: X.call1("comparison", lambda: [X.call1("neg", lambda: [numtok(kind, text)]), X.eval_callback("compare_op", lambda: [optoken("EQUAL")])[0].value, sbind("a")]), lambda: ["(", "-" + str(pai_desc(val_of(numtok(kind, text)))), "=", "[a]", ")"]),
+        }
+        for cname, (mk_, want_) in cases.items():
+            try:
+                got = str(pai_desc(val_of(mk_())))
+            except xform.CallbackFailed as ex:
+                ctx.finding("M3c", cname, loc("comparison"), f"builder fails: {ex}")
+                continue
+            w_ = want_()
+            ctx.check(got.replace(" ", "") == "".join(w_).replace(" ", ""), "M3c", cname, loc("comparison"), got, f"{cname} is normalised to {got!r}, expected {' '.join(w_)!r}: everything after the leading number literal of the compound operand is dropped or altered")
+
     ctx.rule("M4", "function calls, parameter lists, bindings, list expressions, regexes and runtime variables keep their elements verbatim with their delimiters", 7)
     v, o = run_cb("func_params", lambda: [operand("X"), operand("Y"), operand("Z")])
     ctx.check(same(v, SStr([OA("X"), ",", OA("Y"), ",", OA("Z")])), "M4", "func_params", loc("func_params"), "X,Y,Z", f"func_params builds {v!r}")
